@@ -352,7 +352,7 @@ func (c *Ctx) RunC09(tier string) {
 					for j, p2 := range sites[i+1:] {
 						c.roundTrip(w, start, M, legacy, ref.SpellSigned, []Pert{p1, p2}, p1.String()+" "+p2.String())
 						rep.Count("c09:texts-with-2-perturbations")
-						if thorough && wi == 1 {
+						if thorough && (wi == 1 || wi == 2 || wi == 4) {
 							for _, p3 := range sites[i+1+j+1:] {
 								c.roundTrip(w, start, M, legacy, ref.SpellSigned, []Pert{p1, p2, p3}, p1.String()+" "+p2.String()+" "+p3.String())
 								rep.Count("c09:texts-with-3-perturbations")
@@ -363,7 +363,7 @@ func (c *Ctx) RunC09(tier string) {
 			}
 		}
 	}
-	rep.Bound += fmt.Sprintf("; %d warriors x every set of <=2 layout perturbations (quick: <=1, <=2 for one warrior per dialect; thorough: also every set of 3 for a one-instruction warrior per dialect) out of: case of a line, extra blanks / tab at each of 7 gaps, removed blank after the comma, CR-LF, blank / comment / metadata / whitespace-only / 75000-character comment line at every boundary, trailing comment, missing final newline", nw)
+	rep.Bound += fmt.Sprintf("; %d warriors x every set of <=2 layout perturbations (quick: <=1, <=2 for one warrior per dialect; thorough: also every set of 3 for three of the five warriors per dialect) out of: case of a line, extra blanks / tab at each of 7 gaps, removed blank after the comma, CR-LF, blank / comment / metadata / whitespace-only / 75000-character comment line at every boundary, trailing comment, missing final newline", nw)
 	lines := ref.PrintLines(alphabet12(false, 8000)[1:4], 1, false, 8000, ref.SpellSigned)
 	rep.Sample(strings.Join(lines, "\n") + "\n")
 }
